@@ -425,3 +425,32 @@ def deframer_has_no_other_early_out(ctx):
     extra = [st for st in ing.node.body if not isinstance(st, (ast.AugAssign, ast.Expr)) and not (isinstance(st, ast.Assign) and src(st.targets[0]) == 'self.data')]
     ctx.check(not extra, f'{ing.qualname}:only appends', ing.node, 'ingest only appends to the buffer',
               f'ingest keeps additional framing state (`{src(extra[0]) if extra else ""}`): the framing depends on how the stream was segmented', ing)
+
+
+@rule('C07.R2c', min_instances=1)
+def no_request_reaches_a_handler_without_reply(ctx):
+    """a dispatcher handler that returns no reply triple (handle_help) must be unreachable: the interface intercepts every
+    request with that action, i.e. its test looks at the action (msg[0]) alone"""
+    m = ctx.m
+    prefix, handlers = roles.dispatch_handlers(m)
+    silent = []
+    for action, fi in handlers.items():
+        cfg = CFG(fi.node, m, fi.module)
+        falls_off = any(not isinstance(cfg.nodes[a].ast, ast.Return) and a in cfg.live_nodes() for a, lab in cfg.pred[cfg.exit])
+        bare = any(isinstance(n, ast.Return) and n.value is None for n in body_walk(fi.node))
+        if falls_off or bare:
+            silent.append(action)
+    h = _handle(m)
+    ctx.analysed(h)
+    for action in sorted(silent):
+        tests = [n for n in body_walk(h.node) if isinstance(n, ast.If) and any(call_attr(c) == f'handle_{action}' for st in n.body for c in calls_in(st))]
+        construct = f'{h.qualname}:every {action!r} request is answered by the interface'
+        if not tests:
+            ctx.bad(construct, h.node, f'Dispatcher.handle_{action} returns no reply triple and the interface does not intercept {action!r} requests', h)
+            continue
+        for t in tests:
+            c = t.test
+            ok = isinstance(c, ast.Compare) and len(c.ops) == 1 and isinstance(c.ops[0], ast.Eq) and 'msg[0]' in (src(c.left), src(c.comparators[0]))
+            ctx.check(ok, construct, t, f'`{src(c)}` looks at the action only',
+                      f'`{src(c)}` does not intercept every request whose action is {action!r}: a {action} line with a specifier or data reaches '
+                      f'Dispatcher.handle_{action}, which returns None, and `result[0]` then raises outside every try - the connection handler ends', h)
